@@ -73,10 +73,31 @@ def attr? (attrs : List (Str × Str)) (k : Str) : Option Str :=
   | [] => none
   | (k', v) :: rest => if k' = k then some v else attr? rest k
 
+/-- ASCII whitespace of the HTML standard: TAB, LF, FF, CR, SPACE -/
+def isAsciiWS (c : Char) : Bool :=
+  c = ' ' || c = '\t' || c = '\n' || c = '\r' || c.toNat = 12
+
+/-- "strip and collapse ASCII whitespace" (WHATWG): leading/trailing runs removed, inner runs become
+    one SPACE.  `pending` = a whitespace run was seen after some non-whitespace output. -/
+def collapseAux : Bool → Bool → Str → Str
+  | _, _, [] => []
+  | started, pending, c :: cs =>
+    if isAsciiWS c then collapseAux started started cs
+    else if pending then ' ' :: c :: collapseAux true false cs
+    else c :: collapseAux true false cs
+
+def collapseWS (s : Str) : Str := collapseAux false false s
+
+/-- the HTML parser drops one newline that immediately follows the `<textarea>` start tag -/
+def dropLeadingLF : Str → Str
+  | '\n' :: rest => rest
+  | s => s
+
 /-- HTML "successful control" (the part the property talks about): a control without a name or
     with an empty name posts nothing; checkbox/radio post `value` (default "on") only when
-    checked; textarea posts its text; every other input and a (pressed) button post `value`
-    (default ""). -/
+    checked; textarea posts its text minus one leading newline; every other input and a (pressed)
+    button post `value` (default "").  Not modelled: newline normalisation (CR/CRLF → LF by the
+    input stream, newline stripping in text inputs, CRLF on submission). -/
 def submitted (tag : Str) (attrs : List (Str × Str)) (text : Str) : Option (Str × Str) :=
   match attr? attrs sName with
   | none => none
@@ -87,16 +108,16 @@ def submitted (tag : Str) (attrs : List (Str × Str)) (text : Str) : Option (Str
       if ty = "checkbox".toList || ty = "radio".toList then
         if (attr? attrs sChecked).isSome then some (n, (attr? attrs sValue).getD "on".toList) else none
       else some (n, (attr? attrs sValue).getD [])
-    else if tag = sTextarea then some (n, text)
+    else if tag = sTextarea then some (n, dropLeadingLF text)
     else if tag = "button".toList then some (n, (attr? attrs sValue).getD [])
     else none
 
 /-- an `<option>` inside a `<select name=n>` posts `(n, value)` when selected; its value is the
-    `value` attribute, else its text with surrounding whitespace removed -/
-def submittedOption (T : Tables) (selectName : Str) (attrs : List (Str × Str)) (text : Str) : Option (Str × Str) :=
+    `value` attribute, else its text with ASCII whitespace stripped and collapsed -/
+def submittedOption (selectName : Str) (attrs : List (Str × Str)) (text : Str) : Option (Str × Str) :=
   if selectName.isEmpty then none
   else if (attr? attrs sSelected).isSome then
-    some (selectName, (attr? attrs sValue).getD (T.strip text))
+    some (selectName, (attr? attrs sValue).getD (collapseWS text))
   else none
 
 end Flatland.C12
